@@ -46,9 +46,13 @@ def _kept_rule(ctx):
 def run(ctx):
     prog = ctx.prog
     _kept_rule(ctx)
-    from . import C09
     from ..core import RuleAlias
-    C09.run(RuleAlias(ctx, {"C09.8": "C01.10"}))
+    if not isinstance(ctx, RuleAlias):
+        from . import C09
+        C09.run(RuleAlias(ctx, {"C09.8": "C01.10", "C09.5": "C01.10"}))
+        from . import C12, C02
+        C12.run(RuleAlias(ctx, {"C12.1": "C01.11", "C12.2": "C01.11"}))
+        C02.run(RuleAlias(ctx, {"C02.1": "C01.11", "C02.3": "C01.11"}))
     ctx.rule("C01.1", "resolve_local: from 'a zone was found' every path to a cache read crosses a 'zone is not authoritative' edge")
     ctx.rule("C01.2", "resolve_local: a non-authoritative zone answer reaches the cache only for ANY questions or an empty answer; otherwise exactly the zone's records are returned")
     ctx.rule("C01.3", "prioritising_merge drops new records whose (name, type) is already present; every call passes local data first and cache/upstream data second")
@@ -59,6 +63,7 @@ def run(ctx):
     ctx.rule("C01.8", "names the zone owns are never answered with a referral built from the apex node's own NS records (shared with C02.5)")
     ctx.rule("C01.9", "the records found locally stay in the list they are merged from: in the recursive / forwarding resolvers no Vec<ResourceRecord> is emptied or moved out of (mem::take / replace / swap, clear, drain, truncate) - ORIGIN does not see such writes, so they are looked for explicitly")
     ctx.rule("C01.10", "the server keeps what the resolver marked authoritative: sections, AA and RCODE per result variant; SERVFAIL only for a reply with nothing in answer and authority (the rules of C09.8, decided here as well)")
+    ctx.rule("C01.11", "what local data supplies is what the files define: merged zones keep every record of every file (C12.1, C12.2) and a zone hands its records out under the question's name (C02.1, C02.3) - so that the merge by (name, type) can keep upstream records out; the transport rewrites nothing of the reply but TC (C09.5, under C01.10)")
     ctx.decline("equality of the answer with an oracle for every zone set x cache x upstream")
     from . import C02
     C02.apex_rules(ctx, "C01.8")
@@ -102,6 +107,15 @@ def run(ctx):
             ctx.check(ok, "C01.2", "resolve_local:nonauth-hit-returns@get#%d" % gets.index((gb, gt)),
                       "after a zone answer the cache is consulted only if qtype == ANY or the answer is empty",
                       "records of a non-authoritative zone can be mixed with cached records for a non-ANY question", f.loc(gb))
+    # ... and only a non-empty one is final: an empty answer of a non-authoritative zone (a hosts / hints entry of the other
+    # address family) must fall through to the cache, which may hold what was asked
+    for b, i, st in A.aggregates(f, RR_, "NonAuthoritative"):
+        e = r.rvalue(st["rv"], (b, i))
+        src = A.peel(dict(e[3])["rrs"])
+        if src[0] == "field" and src[1][0] == "downcast" and src[1][2] == "Answer":
+            okn, _ = c.guarded(b, lambda fc: fc[0] == "call" and A.is_empty_name(fc[1]) and fc[3] is False and A.last_field(fc[2][0]) == "rrs")
+            ctx.check(okn, "C01.2", "resolve_local:nonauth-final-only-if-nonempty", "a non-authoritative zone answer ends the look-up only when it holds records",
+                      "an empty answer of a non-authoritative zone is returned as final (the cache is never asked)", f.loc(b, i))
     # what is returned early is the zone's answer itself
     for b, i, st in A.aggregates(f, RR_):
         e = r.rvalue(st["rv"], (b, i))
